@@ -1,0 +1,14 @@
+//go:build verif
+
+package galaxy
+
+import (
+	"tkestack.io/galaxy/pkg/network/portmapping"
+)
+
+// VerifSetPortMapping installs a port-mapping handler (built by portmapping.VerifNew over a strict iptables
+// fake) in place of the exec-backed one Init creates.
+func (g *Galaxy) VerifSetPortMapping(h *portmapping.PortMappingHandler) { g.pmhandler = h }
+
+// VerifCleanPort is the port-clean callback galaxy hands to the GC (cleanIPtables).
+func (g *Galaxy) VerifCleanPort(containerID string) error { return g.cleanIPtables(containerID) }
